@@ -41,10 +41,10 @@ def net_stoich(net):
     return out
 
 
-def derivative_contract(name, net, safe):
+def derivative_contract(name, net, safe, prepared=1):
     cls = 'SafeModelCSimInterface' if safe else 'ModelCSimInterface'
-    c = Contract('simulator', 'CSimInterface.calculate_deterministic_derivative', ['C03', 'C04'],
-                 variant='%s:%s' % (cls, name))
+    c = Contract('simulator', 'CSimInterface.calculate_deterministic_derivative', ['C03', 'C04', 'C08'],
+                 variant='%s:%s%s' % (cls, name, '' if prepared == 1 else ':interface-prepared-%d-times' % prepared))
     c.self_class = cls
 
     def build(ex, klass):
@@ -67,7 +67,8 @@ def derivative_contract(name, net, safe):
             M = ex.instantiate(ex.program.find_class('Model'), [], dict(species=list(net['species']), reactions=rx,
                                                                         initial_condition_dict={s: 0 for s in net['species']}))
             itf = ex.instantiate(klass, [M], {})
-            ex.call_method(itf, ex.program.find_method(klass, 'prep_deterministic_simulation'), [], {})
+            for _ in range(prepared):       # an interface reused for a further deterministic simulation is prepared again
+                ex.call_method(itf, ex.program.find_method(klass, 'prep_deterministic_simulation'), [], {})
         finally:
             ex.force_inline = False
         fr.env['M'] = M
@@ -88,3 +89,5 @@ def derivative_contract(name, net, safe):
 for name, net in NETWORKS.items():
     derivative_contract(name, net, False)
     derivative_contract(name, net, True)
+    derivative_contract(name, net, False, prepared=3)
+    derivative_contract(name, net, True, prepared=2)
